@@ -48,6 +48,7 @@ def meme_text(motifs, layout=None):
 		M = numpy.asarray(M)
 		w = M.shape[1]
 		lines.append("MOTIF " + name)
+		lines += [""] * lo.get("blank_after_motif_line", 0)
 		head = "letter-probability matrix: alength= 4 w= %d" % w
 		if lo["nsites"]:
 			head += " nsites= 20 E= 0"
